@@ -202,6 +202,7 @@ def gen_plan(pcfg, hdr, dw, seed):
     fb, fr = pcfg.get("bank", rnd.randrange(nbanks)), pcfg.get("rank", rnd.randrange(nranks))
     r0, r1 = rnd.sample(range(nrows), 2)
     plan = []
+    alias_base = [0]
     for i in range(n):
         gap = 0
         we = rnd.random() < pcfg.get("wfrac", 0.5)
@@ -232,6 +233,14 @@ def gen_plan(pcfg, hdr, dw, seed):
         elif prof == "bursty":
             a = rnd.choice(ws)
             gap = 0 if (i % 16) else rnd.randrange(30, 200)
+        elif prof == "alias":
+            # aliasing probe: write two addresses that differ in exactly one address bit with different data, then read both
+            k = (i // 4) % ac.aw
+            if i % 4 == 0:
+                alias_base[0] = rnd.randrange(1 << ac.aw)
+            a = alias_base[0] ^ ((1 << k) if (i % 4) in (1, 3) else 0)
+            we = (i % 4) < 2
+            gap = 0
         elif prof == "list":
             item = pcfg["items"][i % len(pcfg["items"])]
             gap, we, a = item[0], bool(item[1]), item[2] % (1 << ac.aw)
